@@ -1501,15 +1501,18 @@ func (h *fsmHandler) opensent(ctx context.Context) (bgp.FSMState, *fsmStateReaso
 	wg.Add(1)
 	reasonCh := make(chan fsmStateReason, 1)
 	recvChan := make(chan *fsmMsg, 1)
-	go h.recvMessage(ctx, fsm.conn, recvChan, reasonCh, wg)
+	// the connection this state was entered with; fsm.conn changes when an
+	// outgoing connection takes over.
+	recvConn := fsm.conn
+	go h.recvMessage(ctx, recvConn, recvChan, reasonCh, wg)
 
 	defer func() {
 		// for to stop the recv goroutine
-		fsm.conn.SetReadDeadline(time.Now())
+		recvConn.SetReadDeadline(time.Now())
 		wg.Wait()
 		close(recvChan)
 		// reset the read deadline
-		fsm.conn.SetReadDeadline(time.Time{})
+		recvConn.SetReadDeadline(time.Time{})
 	}()
 
 	// RFC 4271 P.60
@@ -1604,15 +1607,15 @@ func (h *fsmHandler) opensent(ctx context.Context) (bgp.FSMState, *fsmStateReaso
 			case e = <-recvChan:
 			default:
 			}
+			keepIncoming := false
 			if e != nil {
-				nextState, _, _ := fsm.handleOpen(e)
+				nextState, _, notif := fsm.handleOpen(e)
 				if nextState == bgp.BGP_FSM_OPENCONFIRM {
 					// collision detected
 					isDominant := fsm.isDominant(result.open.Body.(*bgp.BGPOpen))
 					if isDominant {
 						// close the incoming connection
 						fsm.logger.Debug("collision detected: dominant on active side, close the incoming connection")
-						incomingConn.Close()
 					} else {
 						// close the outgoing connection
 						fsm.logger.Debug("collision detected: dominant on passive side, close the outgoing connection")
@@ -1621,8 +1624,17 @@ func (h *fsmHandler) opensent(ctx context.Context) (bgp.FSMState, *fsmStateReaso
 						fsm.lock.Lock()
 						fsm.recvOpen = e.MsgData.(*bgp.BGPMessage)
 						fsm.lock.Unlock()
+						keepIncoming = true
 					}
+				} else if notif != nil {
+					// sendNotification closes the connection
+					_ = fsm.sendNotification(incomingConn, notif)
 				}
+			}
+			if !keepIncoming {
+				// the session goes on with the outgoing connection; nobody
+				// looks at the incoming one any more.
+				incomingConn.Close()
 			}
 			b, _ := bgp.NewBGPKeepAliveMessage().Serialize()
 			fsm.conn.SetWriteDeadline(time.Now().Add(time.Second))
